@@ -137,6 +137,11 @@ Definition run (fields : list str) : list str :=
         | [a; b] => [canon (join_raw a b)]
         | _ => BAD
         end
+      else if tag_is tag [99;97;110;111;110;119] then                (* canonw: a b -> canon_w, in the theorem's domain? *)
+        match args with
+        | [a; b] => [canon_w a b; str_of_bool (canon_ok_w a b)]
+        | _ => BAD
+        end
       else if tag_is tag [115;105;109;112;108;105;102;121] then      (* simplify *)
         match args with
         | [p] => [simplify_path p]
